@@ -83,6 +83,15 @@ pub struct GenOpts {
     /// a root type (the real compiler panics: "Expected refetch strategy")
     pub loadable_without_refetch_strategy: bool,
     /// client pointers may declare variables / use variables in their selection set
+    /// `@loadable` on client fields that (transitively) contain `__refetch`, exposed fields,
+    /// `@loadable` selections or pointers (the real compiler panics)
+    pub loadable_with_nested_refetch: bool,
+    /// variables as arguments of client fields / pointers selected below `asConcreteType`
+    /// (the real compiler panics)
+    pub vars_to_client_fields_under_as: bool,
+    /// let client fields select client fields that (transitively) select a pointer whose target
+    /// type differs from its parent type (the real compiler panics)
+    pub select_fields_with_cross_type_pointers: bool,
     pub pointer_variables: bool,
     /// client pointers may target types without `id` or root types (the real compiler panics:
     /// "Type `T` is not fetchable")
@@ -129,6 +138,9 @@ impl Default for GenOpts {
             unparseable_values: false,
             pct_non_root_entrypoint: 0,
             loadable_without_refetch_strategy: false,
+            loadable_with_nested_refetch: false,
+            vars_to_client_fields_under_as: false,
+            select_fields_with_cross_type_pointers: false,
             pointer_variables: true,
             pointer_to_unfetchable: false,
         }
@@ -652,11 +664,18 @@ struct DeclCtx {
     var_names: Names,
     /// never introduce variables (arguments that need one are left out or `null`)
     no_vars: bool,
+    /// currently below an `asConcreteType { … }` selection
+    under_as: bool,
+    /// the selection set generated so far creates refetch paths (`__refetch`, exposed field,
+    /// `@loadable`, client pointer, or a client field that does)
+    refetchy: bool,
+    /// selects (transitively) a pointer with target ≠ parent
+    pointerish: bool,
 }
 
 impl DeclCtx {
     fn new() -> DeclCtx {
-        DeclCtx { vars: vec![], var_names: Names::new(&[]), no_vars: false }
+        DeclCtx { vars: vec![], var_names: Names::new(&[]), no_vars: false, under_as: false, refetchy: false, pointerish: false }
     }
     /// A variable usable for an argument of type `target` (reusing a declared one sometimes).
     fn variable_for(&mut self, r: &mut Rng, o: &GenOpts, s: &Schema, target: &TypeRef, hint: &str) -> String {
@@ -777,6 +796,13 @@ struct ProgCtx<'a> {
     o: &'a GenOpts,
     /// node(id:) exists → `__refetch`/`@loadable` have something to refetch through
     has_node_field: bool,
+    /// client fields (parent, name) whose selection sets (transitively) create refetch paths
+    refetchy: Vec<(String, String)>,
+    /// client fields / pointers that (transitively) select a client pointer whose target type
+    /// differs from its parent type.  Selecting such a field from ANOTHER client field makes the
+    /// reader generator walk the pointer's own selection set against the pointer's TARGET type
+    /// and panic ("Expected selectable to exist"); they are only used as entrypoints.
+    pointerish: Vec<(String, String)>,
 }
 
 fn fresh_alias(r: &mut Rng, used: &[String], base: &str) -> String {
@@ -823,6 +849,12 @@ fn gen_selection_set(r: &mut Rng, pc: &ProgCtx, env: &Env, cx: &mut DeclCtx, ty:
         // weighted choice
         let mut pool: Vec<&Selectable> = vec![];
         for x in &avail {
+            if !o.select_fields_with_cross_type_pointers
+                && matches!(x.kind, SelKind::ClientField | SelKind::ClientPointer)
+                && pc.pointerish.iter().any(|(p, n)| p == ty && *n == x.name)
+            {
+                continue;
+            }
             let w = match x.kind {
                 SelKind::ServerScalar => 4,
                 SelKind::ServerObject => if depth > 1 { 4 } else { 0 },
@@ -864,7 +896,19 @@ fn gen_selection_set(r: &mut Rng, pc: &ProgCtx, env: &Env, cx: &mut DeclCtx, ty:
                 // has an `id` (otherwise the compiler panics "Expected refetch strategy")
                 let refetchable = matches!(ty, "Query" | "Mutation" | "Subscription")
                     || (pc.has_node_field && s.get(ty).map_or(false, |t| t.has_id()));
-                if (refetchable || o.loadable_without_refetch_strategy) && pct(r, o.pct_loadable) {
+                // … and the loaded field must not itself contain refetch paths (`__refetch`,
+                // exposed fields, nested `@loadable`, pointers): the entrypoint generator looks
+                // those paths up in the wrong selection map and panics ("Expected linked field to
+                // exist by now")
+                let is_refetchy = pc.refetchy.iter().any(|(p, n)| p == ty && *n == x.name);
+                if is_refetchy {
+                    cx.refetchy = true;
+                }
+                if (refetchable || o.loadable_without_refetch_strategy)
+                    && (!is_refetchy || o.loadable_with_nested_refetch)
+                    && pct(r, o.pct_loadable)
+                {
+                    cx.refetchy = true;
                     loadable = true;
                     head.directives.push(Directive::loadable(r.chance(1, 2)));
                 }
@@ -876,7 +920,22 @@ fn gen_selection_set(r: &mut Rng, pc: &ProgCtx, env: &Env, cx: &mut DeclCtx, ty:
             }
             _ => {}
         }
-        match gen_args_for(r, pc, s, cx, x, loadable) {
+        if matches!(x.kind, SelKind::Refetch | SelKind::Exposed | SelKind::ClientPointer) {
+            cx.refetchy = true;
+        }
+        if x.kind == SelKind::ClientPointer && x.target.as_deref() != Some(ty) {
+            cx.pointerish = true;
+        }
+        // below an `asConcreteType` selection the compiler merges with an EMPTY variable
+        // context: a variable handed to a client field / pointer there panics ("Parent context
+        // has missing variable")
+        let saved_no_vars = cx.no_vars;
+        if cx.under_as && matches!(x.kind, SelKind::ClientField | SelKind::ClientPointer) && !o.vars_to_client_fields_under_as {
+            cx.no_vars = true;
+        }
+        let args = gen_args_for(r, pc, s, cx, x, loadable);
+        cx.no_vars = saved_no_vars;
+        match args {
             Some(a) => head.args = a,
             None => {
                 used.pop();
@@ -885,7 +944,12 @@ fn gen_selection_set(r: &mut Rng, pc: &ProgCtx, env: &Env, cx: &mut DeclCtx, ty:
         }
         if x.kind.is_linked() {
             let target = x.target.clone().unwrap();
+            let saved_under_as = cx.under_as;
+            if x.kind == SelKind::AsConcrete {
+                cx.under_as = true;
+            }
             let kids = gen_selection_set(r, pc, env, cx, &target, depth - 1, allow_updatable);
+            cx.under_as = saved_under_as;
             out.push(Selection::Linked(head, kids));
         } else {
             out.push(Selection::Scalar(head));
@@ -933,7 +997,7 @@ pub fn generate(r: &mut Rng, o: &GenOpts) -> Project {
     let root = p.options.project_root.clone();
 
     let has_node_field = p.schema.get("Query").and_then(|q| q.field("node")).is_some();
-    let pc = ProgCtx { o, has_node_field };
+    let mut pc = ProgCtx { o, has_node_field, refetchy: vec![], pointerish: vec![] };
 
     // candidate parent types, Query first and most likely
     let composites: Vec<String> = p.schema.types.iter().filter(|t| t.is_composite()).map(|t| t.name.clone()).collect();
@@ -999,11 +1063,15 @@ pub fn generate(r: &mut Rng, o: &GenOpts) -> Project {
             })
             .cloned()
             .collect();
+        let refetchy;
+        let pointerish;
         let decl = if !is_root && !pointer_targets.is_empty() && pct(r, o.pct_pointer) {
             let target = r.pick(&pointer_targets).clone();
             let to = wrap_output(r, TypeRef::Named(target), true);
             cx.no_vars = !o.pointer_variables;
             let selections = gen_selection_set(r, &pc, &env, &mut cx, &parent, o.max_depth.max(1), false);
+            refetchy = cx.refetchy;
+            pointerish = cx.pointerish;
             Decl::ClientPointer(ClientPointer {
                 parent: parent.clone(),
                 name: name.clone(),
@@ -1015,6 +1083,8 @@ pub fn generate(r: &mut Rng, o: &GenOpts) -> Project {
             })
         } else {
             let selections = gen_selection_set(r, &pc, &env, &mut cx, &parent, o.max_depth.max(1), true);
+            refetchy = cx.refetchy;
+            pointerish = cx.pointerish;
             let directives = if pct(r, o.pct_component) { vec![Directive::component()] } else { vec![] };
             Decl::ClientField(ClientField {
                 parent: parent.clone(),
@@ -1026,6 +1096,12 @@ pub fn generate(r: &mut Rng, o: &GenOpts) -> Project {
             })
         };
         let is_field = matches!(decl, Decl::ClientField(_));
+        if refetchy {
+            pc.refetchy.push((parent.clone(), name.clone()));
+        }
+        if pointerish {
+            pc.pointerish.push((parent.clone(), name.clone()));
+        }
         p.decls.push((file.clone(), decl));
         let fetchable_non_root = !is_root
             && pc.has_node_field
